@@ -96,6 +96,21 @@ fn tree_ops(parent: &[usize], ids: &[usize], labels: &[Label], dp: &[u8], put_fi
     ops
 }
 
+/// Facts check: is the real graph the one the model describes (vertices, edges, data held)?
+fn graph_is(g: &dyn crate::shim::Graph, m: &Model) -> bool {
+    if g.keys() != m.keys() {
+        return false;
+    }
+    let real = crate::rec::real_data(g);
+    m.verts.iter().all(|(v, x)| {
+        let mut a = g.kids(*v);
+        let mut b = x.edges.clone();
+        a.sort();
+        b.sort();
+        a == b && real.get(v) == Some(&x.data)
+    })
+}
+
 fn h_reachable(hm: &Model, right: usize) -> BTreeSet<usize> {
     let mut seen = BTreeSet::new();
     let mut todo = vec![right];
@@ -118,17 +133,26 @@ pub fn run_c11_case(case: &MergeCase, c: &mut Counters, work: &std::path::Path) 
     let labels = crate::hist::labels_of(&[case.g_ops.clone(), vec![case.merge.clone()]].concat());
     let mut scratch = Counters::default();
     // build the left graph (the trace monitor follows from the start)
+    // the twin receives the same calls and later the primitive add/bind/put calls the merge stands for
+    let mut twin: Box<dyn crate::shim::Graph> = new_graph(case.n, case.cap);
+    let mut uniq = 0u64;
     for op in &case.g_ops {
         if !s.m.legal(op) {
             continue;
         }
         let mut o = s.step(op);
-        if o.panic.is_some() || s.g.keys() != s.m.keys() {
+        let tr = crate::rec::exec_raw(&mut twin, op, work, &mut uniq, &labels);
+        if o.panic.is_some() || tr.is_err() || s.g.keys() != s.m.keys() {
             c.inc("c11.left-graph-build-diverged");
             return (None, false, s.ops);
         }
         let mut ctx = Ctx { c: &mut scratch, rng: &mut rng, labels: labels.clone() };
         let _ = trace.after(&mut s, op, &mut o, &mut ctx);
+    }
+    // facts first: the left graph as really built must be the one the case describes
+    if !graph_is(s.g.as_ref(), &s.m) {
+        c.inc("c11.left-graph-not-built-as-described(skipped)");
+        return (None, false, s.ops);
     }
     let Op::Merge { h, left, right } = &case.merge else { return (None, false, s.ops) };
     let Some(hm) = Model::build(case.n, case.cap, h) else { return (None, false, s.ops) };
@@ -143,6 +167,22 @@ pub fn run_c11_case(case: &MergeCase, c: &mut Counters, work: &std::path::Path) 
     let overlap = hm.verts.len() - 1 - expect_new.min(hm.verts.len() - 1);
     let mut o = s.step(&case.merge);
     c.inc("c11.merges");
+    if let Some((hg, hm2)) = &o.merge_h {
+        // (the right graph is unchanged by a correct merge; if it was not even built as described
+        //  the case is outside the quantifier; a change made BY merge is caught below against a twin of h)
+        let _ = hg;
+        {
+            let mut h2 = new_graph(case.n, case.cap);
+            let mut u2 = 0u64;
+            for hop in h {
+                let _ = crate::rec::exec_raw(&mut h2, hop, work, &mut u2, &labels);
+            }
+            if !graph_is(h2.as_ref(), hm2) {
+                c.inc("c11.right-graph-not-built-as-described(skipped)");
+                return (None, false, s.ops);
+            }
+        }
+    }
     if let Some(p) = &o.panic {
         return (Some(format!("merge of two trees within the limits panicked: {p}")), false, s.ops);
     }
@@ -233,8 +273,33 @@ pub fn run_c11_case(case: &MergeCase, c: &mut Counters, work: &std::path::Path) 
             return (Some("two vertices of the right tree landed on the same vertex of the left graph".to_string()), false, s.ops);
         }
     }
-    // GC continuation: random reads, then drain; judged by the trace rules (C01), the model (C02)
-    // and read-back of bytes (C03) at every call
+    // "as if the additions had been made by add/bind/put": make exactly those calls on the twin
+    {
+        let t = &mut twin;
+        let prims = o.prims.clone();
+        let r = crate::rec::guarded(|| {
+            for p in &prims {
+                match p {
+                    crate::model::Prim::NextId(_) => {
+                        let _ = t.next_id();
+                    }
+                    crate::model::Prim::Add(v) => t.add(*v),
+                    crate::model::Prim::Bind(a, b, l) => t.bind(*a, *b, *l),
+                    crate::model::Prim::Put(v, d) => t.put(*v, &sodg::Hex::from_vec(d.clone())),
+                }
+            }
+        });
+        if r.is_err() {
+            c.inc("c11.direct-calls-panicked(skipped)");
+            return (None, false, s.ops);
+        }
+        let (a, b) = (digest(s.g.as_ref(), O_KEYS | O_EDGES, &labels), digest(twin.as_ref(), O_KEYS | O_EDGES, &labels));
+        if a != b {
+            return (Some(format!("the merged graph differs from the one built by the same add/bind/put calls: {}", first_diff(&b, &a))), false, s.ops);
+        }
+    }
+    // GC continuation: random reads, then drain; judged by the trace rules (C01, facts only) and
+    // in lock-step against the twin built by direct calls (return values, alive set, edges)
     let mut died = false;
     let mut order: Vec<usize> = s.m.verts.iter().filter(|(_, x)| x.data.is_some()).map(|(v, _)| *v).collect();
     rng.shuffle(&mut order);
@@ -263,20 +328,37 @@ pub fn run_c11_case(case: &MergeCase, c: &mut Counters, work: &std::path::Path) 
         if let Some(m) = trace.after(&mut s, &op, &mut o, &mut ctx) {
             return (Some(format!("after the merge (C01 rules): {m}")), false, s.ops);
         }
-        if s.g.keys() != s.m.keys() {
+        let tr = crate::rec::exec_raw(&mut twin, &op, work, &mut uniq, &labels);
+        match tr {
+            Err(p) => return (Some(format!("after the merge, data({v}) panics ({p}) only on the graph built by direct calls")), false, s.ops),
+            Ok(r) => {
+                if r != o.ret {
+                    return (
+                        Some(format!("after the merge, data({v}) returned {:?}; on the graph built by the same add/bind/put calls it returns {:?}", o.ret, r)),
+                        false,
+                        s.ops,
+                    );
+                }
+            }
+        }
+        if s.g.keys() != twin.keys() {
             return (
                 Some(format!(
-                    "after the merge, data({v}) left vertices {:?}; as if built by add/bind/put it would be {:?}",
+                    "after the merge, data({v}) left vertices {:?}; on the graph built by the same add/bind/put calls {:?} are left",
                     s.g.keys(),
-                    s.m.keys()
+                    twin.keys()
                 )),
                 false,
                 s.ops,
             );
         }
-        if let Some(m) = c03.after(&mut s, &op, &mut o, &mut ctx) {
-            return (Some(format!("after the merge (read-back): {m}")), false, s.ops);
+        if s.g.keys() != s.m.keys() {
+            // both real graphs agree with each other but not with the model: not merge's doing
+            c.inc("c11.model-differs-but-direct-call-twin-agrees");
+            let snap = s.g.snapshot();
+            s.m.resync(&snap);
         }
+        let _ = &mut c03;
     }
     let h_has_data_on_overlap = hm.verts.iter().any(|(_, x)| x.data.is_some());
     let nontrivial = overlap >= 1 && expect_new >= 1 && h_has_data_on_overlap && died;
@@ -286,11 +368,13 @@ pub fn run_c11_case(case: &MergeCase, c: &mut Counters, work: &std::path::Path) 
 fn gen_c11_case(seed: u64, thorough: bool) -> MergeCase {
     let mut rng = Rng::new(seed);
     let n = *rng.pick(&[2usize, 3, 4, 4, 8, 16]);
-    let cap = *rng.pick(&[16usize, 24, 40, 64, 256]);
+    // one case in three runs in a graph that the result (almost) fills up
+    let tight = rng.chance(1, 3);
+    let cap = if tight { rng.range(3, 14) } else { *rng.pick(&[16usize, 24, 40, 64, 256]) };
     let labels = label_universe(&mut rng, n.min(4).max(2));
     let mut g_ops: Vec<Op> = vec![];
     // optional GC history first: groups that live and die, allocator ahead
-    if rng.chance(1, 2) {
+    if rng.chance(1, 2) && !tight {
         let mut gen = Gen::new(rng.next(), Profile::Churn, n, cap);
         let _ = &mut gen;
         let k = rng.range(1, 3);
@@ -309,7 +393,7 @@ fn gen_c11_case(seed: u64, thorough: bool) -> MergeCase {
     }
     // the left tree
     let max_v = if thorough { 12 } else { 9 };
-    let gk = rng.range(1, max_v.min(cap / 3).max(1));
+    let gk = if tight { rng.range(1, (cap * 2 / 3).max(1)) } else { rng.range(1, max_v.min(cap / 3).max(1)) };
     let gt = random_parent(&mut rng, gk, n);
     let mut ids: Vec<usize> = vec![];
     while ids.len() < gk {
@@ -328,7 +412,7 @@ fn gen_c11_case(seed: u64, thorough: bool) -> MergeCase {
     }
     let left = ids[rng.below(gk)];
     // the right tree: overlaps with the subtree at left by using the same child-label scheme
-    let hk = rng.range(1, max_v.min(cap / 3).max(1));
+    let hk = if tight { rng.range(1, cap.min(max_v)) } else { rng.range(1, max_v.min(cap / 3).max(1)) };
     let ht = random_parent(&mut rng, hk, n);
     let mut hids: Vec<usize> = vec![];
     while hids.len() < hk {
@@ -501,6 +585,20 @@ pub fn run_c12_case(n: usize, cap: usize, g_ops: &[Op], h: &[Op], left: usize, r
             }
         }
         let hk = hg.keys();
+        // facts first: both graphs as really built must be the ones the case describes
+        let same = |gr: &Box<dyn crate::shim::Graph>, m: &Model| -> bool {
+            gr.keys() == m.keys()
+                && m.verts.iter().all(|(v, x)| {
+                    let mut a = gr.kids(*v);
+                    let mut b = x.edges.clone();
+                    a.sort();
+                    b.sort();
+                    a == b
+                })
+        };
+        if !same(&g, &gm) || !same(&hg, &hm) {
+            return (Ok(()), vec![usize::MAX]);
+        }
         (g.merge(hg.as_ref(), left, right), hk)
     });
     c.inc("c12.merges");
@@ -509,6 +607,7 @@ pub fn run_c12_case(n: usize, cap: usize, g_ops: &[Op], h: &[Op], left: usize, r
         Err(p) => (Some(format!("merge panicked instead of returning a Result: {p}")), nontrivial),
         Ok((res, hkeys)) => {
             if hkeys != hm.keys() {
+                c.inc("c12.graphs-not-built-as-described(skipped)");
                 return (None, false);
             }
             match res {
